@@ -50,7 +50,6 @@ mod h {
         kani::cover!(expected);
         kani::cover!(!expected);
     }
-    #[kani::proof] #[kani::unwind(6)] fn check_time_windows_matches_rule_len0() { let v: [Option<TimeWindow>; 0] = []; assert!(!check_time_windows(&v, kani::any()), "post_empty_list_rejected"); }
     #[kani::proof] #[kani::unwind(6)] fn check_time_windows_matches_rule_len1() { check::<1>(); }
     #[kani::proof] #[kani::unwind(6)] fn check_time_windows_matches_rule_len2() { check::<2>(); }
     #[kani::proof] #[kani::unwind(6)] fn check_time_windows_matches_rule_len3() { check::<3>(); }
